@@ -359,6 +359,32 @@ def run(ctx):
             ctx.check(expr.mentions(ln, lambda v: v[0] == "call" and v[1].endswith("::len")) and
                       expr.mentions(ln, lambda v: v[0] == "call" and v[1].endswith("hpack_encode")), "C15-c", se.key,
                       "declared length = length of the Huffman-encoded bytes", "declared length is %s" % pa.vfmt(ln), "")
+    if se:
+        # on every path: the declared length, the H flag and the octets written belong together (Huffman bytes with H = 1 and their
+        # length, or - if a plain form were ever chosen - the raw value with H = 0 and ITS length)
+        def root_(v):
+            if v is None:
+                return None
+            if expr.mentions(v, lambda x: x[0] == "call" and x[1].endswith("hpack_encode")):
+                return "huffman"
+            if expr.mentions(v, lambda x: x[0] == "param" and x[1] == 3):
+                return "raw"
+            return None
+        n_enc = 0
+        for p in ru.all_paths(ctx, "C15-c", se, max_visits=1):
+            ee = p.calls(PI + "encode")
+            if not ee:
+                continue
+            n_enc += 1
+            fv, lnv = ee[0][3][1], ee[0][3][2]
+            hbit = expr.fold(fv[3]) if fv[0] == "binop" and fv[1] == "BitOr" else None
+            its_ = [e[3][0] for e in p.calls("core::iter::traits::collect::IntoIterator::into_iter", "::into_iter", "::iter")]
+            wr = root_(its_[-1]) if its_ else None
+            ok = root_(lnv) is not None and (wr is None or wr == root_(lnv)) and hbit in (0, 1) and (hbit == 1) == (root_(lnv) == "huffman")
+            ctx.check(ok, "C15-c", se.key, "declared length, H flag and written octets belong to the same form",
+                      "string encode declares the length of the %s bytes with H = %s and writes the %s bytes: the decoder reads the wrong number of octets "
+                      "and the rest of the field section is misparsed" % (root_(lnv), hbit, wr), "", None, p.describe())
+        ctx.floor("C15-c", "paths of string encode that write the prefix", n_enc, 1)
     # ------------------------------------------------------------ C15-d padding bits examined at end of input
     ce = ru.need(ctx, "C15-d", P + "decode::HuffmanDecoder::check_eof")
     if ce:
